@@ -67,6 +67,9 @@ def writeAt (mem : List Nat) (pos : Nat) (bs : List Nat) : List Nat :=
 
 def readAt (mem : List Nat) (pos size : Nat) : List Nat := (mem.drop pos).take size
 
+/-- `memmove(buf, from, to, count)` (array_buffer/utils.rs): the source range is read as a whole, then written -/
+def copyWithinImpl (mem : List Nat) (fromB toB count : Nat) : List Nat := writeAt mem toB (readAt mem fromB count)
+
 inductive Val
   | num (bits : Nat)       -- a Number, as its double bit pattern
   | big (n : Int)          -- a BigInt
@@ -118,6 +121,7 @@ inductive Op
   | dvSet (k : Kind) (off : Nat) (le : Bool) (x : Val)
   | detach
   | copy (dst src off : Nat)      -- `views[dst].set(views[src], off)`
+  | copyWithin (v target start : Nat) (fin : Option Nat)   -- `views[v].copyWithin(target, start, fin)` with non-negative arguments
   deriving Repr
 
 /-- the double bit pattern of an integer of magnitude below 2^53 -/
@@ -233,5 +237,21 @@ def step (s : St) : Op → St × String
             | none => (acc.1, acc.2 + 1)) (s.buf.bytes, 0)
           ({ s with buf := { s.buf with bytes := mem } }, "ok")
     | _, _ => (s, "bad-op")
+  | .copyWithin vi target start fin =>
+    match s.views[vi]? with
+    | none => (s, "bad-op")
+    | some v =>
+      -- %TypedArray%.prototype.copyWithin, steps 1-17 for non-negative integer arguments (no user code runs in between)
+      if viewOOB s.buf v then (s, "TypeError")
+      else
+        let len := viewLength s.buf v
+        let to := min target len
+        let from_ := min start len
+        let final := match fin with | some e => min e len | none => len
+        let count := min (final - from_) (len - to)
+        if count > 0 then
+          let sz := v.kind.size
+          ({ s with buf := { s.buf with bytes := copyWithinImpl s.buf.bytes (from_ * sz + v.byteOffset) (to * sz + v.byteOffset) (count * sz) } }, "ok")
+        else (s, "ok")
 
 end BoaVerif.C15
